@@ -29,6 +29,9 @@ DEFAULT_ENV = {
     "cpu_count": 2,
     "p_stall": 0.0,
     "stall_max": 60.0,
+    "p_exotic_state": 0.0,             # squeue shows another non-finished state name for a pending / running job
+    "p_preempt": 0.0,                  # a process is descheduled for a moment at a lock boundary (legal behaviour)
+    "preempt_max": 1.0,
     "epilog_max": 20.0,
     "p_configuring": 0.2,
     "enforce_walltime": False,
@@ -54,12 +57,17 @@ class Faults:
         self.sites = [dict(s) for s in self.plan.get("sites", [])]
         self.kinds = set(self.plan.get("kinds", [])) | set(self.p) | {s["kind"] for s in self.sites}
         self.counters = {}
+        self.hot = {}
         self.fired = []
         self.series = {}
 
     def _decide(self, kind, vp, detail=None):
         n = self.counters.get(kind, 0)
         self.counters[kind] = n + 1
+        if self.w.round_in_flight():
+            # a round has handed a batch to the HPC and not yet persisted it (submitter.lock exists):
+            # faults here meet in-flight state; the sweep samples these sites preferentially
+            self.hot.setdefault(kind, []).append(n)
         for s in self.sites:
             if s["kind"] == kind and s["n"] == n and not s.get("_done"):
                 s["_done"] = True
@@ -120,6 +128,14 @@ class Faults:
             d = w.ch.delay(0.0, ol, "op_lat", steps=8)
             if d > 0:
                 w.sleep(vp, d)
+        ppr = w.envk["p_preempt"]
+        if ppr > 0 and kind in ("lock_acquire", "lock_release") and w.ch.flip(ppr, "preempt"):
+            # critical sections are where JADE's processes race: a short nap right before taking or right
+            # after leaving one lets the others run whole sections in between (few, well-placed
+            # pre-emption points instead of uniformly random ones)
+            d = w.ch.delay(0.001, w.envk["preempt_max"], "preempt_len", log=True)
+            w.fault_fired("preempt")
+            w.sleep(vp, d)
         pst = w.envk["p_stall"]
         if pst > 0 and w.ch.flip(pst, "stall"):
             d = w.ch.delay(1.0, w.envk["stall_max"], "stall_len", log=True)
@@ -462,6 +478,9 @@ class SimWorld(World):
         return {"rc": real_rc, "argv": args, "env": {k: envd.get(k) for k in ("JADE_RUNTIME_OUTPUT", "JADE_JOB_NAME")}}
 
     # ------------------------------------------------------------------ stats (C20)
+    def round_in_flight(self):
+        return os.path.exists(os.path.join(self.output, "submitter.lock"))
+
     def stat_proc_name(self, vp, pid):
         """Name under which the samples of process `pid` are recorded, None if there is no such
         live process on the caller's node."""
